@@ -12,7 +12,7 @@ enum { F_CUT = 0, F_CAPACITY };
 const char *fault_names[] = {"channel_cut", "capacity_exhausted", nullptr};
 enum { P_CUT_MID_VALUE = 0, P_CUT_AT_BOUNDARY, P_ALL_READ, P_EXACT_FIT, P_ONE_OVER, P_REJECTED, P_EMPTY_CONTAINER, P_NESTED_VECTOR };
 const char *probe_names[] = {"cut_made_a_read_throw", "cut_at_value_boundary", "all_values_read_back", "fixed_writer_exact_fit", "fixed_writer_one_byte_over",
-                             "fixed_writer_rejected_a_write", "empty_string_or_vector", "nested_vector", nullptr};
+                             "fixed_writer_rejected_a_write", "empty_string_or_vector", "nested_vector", "reader_attached_while_writing_finished", nullptr};
 const char *tn[] = {"u8", "i16", "i32", "u64", "float", "double", "pod-struct", "string", "c-string", "vector<int>", "vector<string>", "vector<vector<int>>",
                     "ArrayView", "OwnedArray", "FixedArray", "FixedArrayView"};
 void reset()
@@ -22,9 +22,9 @@ void reset()
 }
 void do_plan(int tier)
 {
-  unsigned m = sim_plan(6);
-  plan.mode = m < 2 ? 0 : (m < 4 ? 1 : 2);
-  if (plan.mode < 2) {
+  unsigned m = sim_plan(7);
+  plan.mode = m < 2 ? 0 : (m < 4 ? 1 : (m < 6 ? 2 : 3));
+  if (plan.mode != 2) {
     plan.nvals = (int)sim_plan(A15_MAXVALS + 1);
     for (int i = 0; i < plan.nvals; i++) {
       A15Value &v = plan.vals[i];
@@ -42,6 +42,9 @@ void do_plan(int tier)
         sim_probe(P_NESTED_VECTOR);
     }
     plan.cut_choice = (int)sim_plan(1 << 16);
+    plan.reader_at = plan.mode == 3 ? (int)sim_plan((uint32_t)plan.nvals + 1) : 0;
+    if (plan.mode == 3 && plan.nvals == 0)
+      plan.mode = 0;
   } else {
     plan.nfix = 1 + (int)sim_plan(A15_MAXFIXOPS);
     for (int i = 0; i < plan.nfix; i++) {
@@ -66,8 +69,9 @@ int stuck(int, char *cls, size_t n)
 void describe(char *buf, size_t n)
 {
   int k;
-  if (plan.mode < 2) {
-    k = snprintf(buf, n, "{\"mode\": \"%s\", \"cut_choice\": %d, \"values\": [", plan.mode ? "round trip through a cut channel" : "round trip, fault-free", plan.cut_choice);
+  if (plan.mode != 2) {
+    k = snprintf(buf, n, "{\"mode\": \"%s\", \"cut_choice\": %d, \"reader_created_after_values\": %d, \"values\": [",
+                 plan.mode == 3 ? "reader attached to a writer that keeps writing" : (plan.mode ? "round trip through a cut channel" : "round trip, fault-free"), plan.cut_choice, plan.reader_at);
     for (int i = 0; i < plan.nvals; i++)
       k += snprintf(buf + k, n - k, "%s\"%s len %d\"", i ? "," : "", tn[plan.vals[i].type], plan.vals[i].len);
     snprintf(buf + k, n - k, "]}");
